@@ -82,8 +82,10 @@ CLAIM = ("Every generated assignment was executed on the real dask.array and on 
 LEVEL_NOTE = "NumPy is the reference; domain limited to the assignment indices dask documents"
 TECHNIQUE = "runtime monitoring: NumPy differential oracle over all chunkings of small arrays x index/value patterns and generated assignments"
 
-# Every label that was PENDING is repaired by fixes_ready/C21_01..09 (+ C20_01); nothing is recorded as known.
-PENDING = {}
+# Every other label that was PENDING is repaired by fixes_ready/C21_01..09 (+ C20_01); this one is a known finding.
+PENDING = {
+    "setitem:whole-array-dask-mask&zero-size-chunk:wrong-result": "x[mask] = v on an array without elements with chunks ((0, 0),): chunks become ((0,),) (where() merges them, rechunk() does not act on empty arrays)",
+}
 FIXED = {
     "C20_01_negative_step_start_below_minus_n": ["setitem:slice[negstep,start<-n]&value=scalar:values"],
     "C21_01_setitem_int_before_negative_step_slice": ["setitem:int+negative-step-slice:raises", "setitem:int+negative-step-slice:wrong-result"],
@@ -94,7 +96,6 @@ FIXED = {
                                                        "setitem:Ellipsis+dask-bool-array&split-chunks&value=array:values",
                                                        "setitem:Ellipsis+dask-bool-array+int&split-chunks&value=array:values"],
     "C21_05_setitem_dask_mask_keeps_chunks": ["setitem:whole-array-dask-mask[chunked-differently]:chunks-changed",
-                                              "setitem:whole-array-dask-mask&zero-size-chunk:wrong-result",
                                               "setitem:whole-array-dask-mask&zero-size-chunk:raises"],
     "C21_06_setitem_dask_mask_one_element_value": ["setitem:whole-array-dask-mask&value=1-element-array:*"],
     "C21_07_setitem_tuple_wrapped_dask_mask": ["setitem:tuple-wrapped-whole-array-dask-mask:IndexError@array/slicing.py:parse_assignment_indices",
